@@ -264,7 +264,7 @@ pub fn arm_run(mem: &dyn Mem, start: u32, state: ArmState, max_steps: usize) -> 
                     let imm = h2 & 0xFFF;
                     let base = pc.wrapping_add(4) & !3;
                     let addr = if u == 1 { base.wrapping_add(imm) } else { base.wrapping_sub(imm) };
-                    o.trace.push(format!("{pc:#x}: ldr.w r{rt}, [pc, #{imm}] ; ={addr:#x}"));
+                    o.trace.push(format!("{pc:#x}: ldr.w r{rt}, [pc, #{}{imm}] ; ={addr:#x}", if u == 1 { "" } else { "-" }));
                     if addr % 4 != 0 && rt == 15 {
                         o.end = ArmEnd::Unknown { at: pc, enc: (h << 16) | h2, why: "unaligned literal for pc load" };
                         return o;
